@@ -374,7 +374,9 @@ def check_is_legal(ctx, f, L):
             elif residual[0] == "pawn-generator":
                 pg = N.generators["Pawn"]
                 cls = N.gen_call_classes(pg)
-                ok = ret[0] == "call" and ret[1] == pg and len(ret) > 3 and residual[1] in ret[3] and len(ret[2]) == len(cls)
+                flag_v = sym.TRUE if residual[1] == "true" else sym.FALSE
+                # the check mode as a constant generic of the call, or handed in as a runtime flag
+                ok = ret[0] == "call" and ret[1] == pg and ((len(ret) > 3 and residual[1] in ret[3]) or flag_v in ret[2]) and len(ret[2]) == len(cls)
                 li = cls.index("listener") if "listener" in cls else 2
                 if ok:
                     raw_args = p.ret[2]
@@ -386,6 +388,8 @@ def check_is_legal(ctx, f, L):
                             ok = ok and a_[0] == "ptr" and a_[1] == ("P", "self")
                         elif c_ == "mask":
                             ok = ok and a_ == ("bbof", FROM)
+                        elif c_ == "bound" and a_ in (sym.TRUE, sym.FALSE) and f.bodies[pg].locals[i_ + 1]["ty"] == "bool":
+                            ok = ok and a_ == flag_v            # the runtime check-mode flag
                         elif c_ == "bound":
                             # a value the roster computes and hands in: is_legal must hand in the same value
                             want_ = L.lift(bound.get(pgb.local_name(i_ + 1)))
